@@ -44,9 +44,9 @@ def handleRun (rest : List String) : String :=
           let realLines := realOut.splitOn "\n"
           let realUnknown := realLines.filter (·.startsWith "unknown ")
           let realListing := String.intercalate "\n" (realLines.filter (fun l => !l.startsWith "unknown "))
-          let modelHang := r.hang || r.stderr.any (· == M87C.hangMark)
+          let modelHang := r.hang
           let mUnknown := (r.stderr.filter isMarked).map unmark
-          let mErr := String.join ((r.stderr.filter (fun l => !isMarked l && l != M87C.hangMark)).map (· ++ "\n"))
+          let mErr := String.join ((r.stderr.filter (fun l => !isMarked l)).map (· ++ "\n"))
           let textEq := r.ok && r.stdout == realListing && mUnknown == realUnknown
           let l1 := sameSet r.codeC ((r.areas.filter (!·.2)).map (·.1))
           let areasReal := Spec.parseAreas realOut
@@ -98,7 +98,7 @@ def handleIns (rest : List String) : String :=
         let image : Image := (vecChunk ++ [CodeChunk.mk a bytes]).foldl (fun im c => imageInsert c im) []
         let syms : Syms := { tab := pairs.map (fun p => (p.2, p.1)), maxLen := 0 }
         let r := M87C.disassemble image lower syms a false (-1)
-        let hang := r.2.2.any (· == M87C.hangMark)
+        let hang := r.1.len == 0 && r.2.2.isEmpty
         let realText := strOfBytes rtxt
         s!"dec={if r.1.src == realText then "eq" else "ne"} len={if r.1.len == rl then "eq" else "ne"} mlen={r.1.len} hang={if hang then 1 else 0} mtext={hex (bytesOfStr r.1.src)}"
       | _, _ => "error=parse2"
@@ -107,10 +107,15 @@ def handleIns (rest : List String) : String :=
 
 /-- `jmp <pc> <mnemonic> <condition | -> <target value | vector number> <real asl bytes hex | none>`
 one jump/call statement with a program address as operand, as the real asl assembled it at `pc` (`none`: asl reported an error):
-answer `enc=<eq|ne> dec=<ok|none|ne> rt=<ok|fail|na> masm=<hex|none>`
+answer `enc=<eq|ne> dec=<ok|none|ne> rt=<ok|fail|na> txt=<eq|ne|na> masm=<hex|none>`
+ * txt – (B) `A87C.assembleText` on the source line (symbol table: the one name with the target value) against the real asl
  * enc – (B) `A87C.encode` against the real asl;  dec – `A87C.jumpStmt` (what `M87C` prints for these bytes) re-encodes to the same bytes
  * rt – what `C15_87c_jump_roundtrip_partial` says (`ok`), `na` when the statement was rejected or is the excluded `call` into page FF -/
-def handleJmp (rest : List String) : String :=
+def handleJmp (rest0 : List String) : String :=
+  -- optional tail `<statement text hex> <symbol name | ->`: the source line as written, for `A87C.assembleText`
+  let (rest, textPart) : List String × Option (String × String) := match rest0 with
+    | [pc, memo, cond, tgt, bytes, tx, nm] => ([pc, memo, cond, tgt, bytes], some (tx, nm))
+    | r => (r, none)
   match rest with
   | [pc, memo, cond, tgt, bytes] =>
     match pc.toNat?, tgt.toNat?, (if bytes = "none" then some none else (unhex bytes).map some) with
@@ -138,7 +143,15 @@ def handleJmp (rest : List String) : String :=
               let excluded := op == 0xfc && data.getD 1 0 == 0xff
               (if again == some (op :: data) then "ok" else "ne", if excluded then "na" else if again == some (op :: data) then "ok" else "fail")
           | _ => ("none", "na")
-        s!"enc={if enc == realN then "eq" else "ne"} dec={dec} rt={rt} masm={match enc with | some b => hex (b.map UInt8.ofNat) | none => "none"}"
+        let txt : String := match textPart with
+          | none => "na"
+          | some (tx, nm) =>
+            match unhex tx with
+            | none => "err"
+            | some bs =>
+              let env : AslModel.Dis.A6800.Env := fun n => if nm != "-" && n == nm.toList then some t else none
+              if A87C.assembleText env pc (bs.map (fun b => Char.ofNat b.toNat)) == realN then "eq" else "ne"
+        s!"enc={if enc == realN then "eq" else "ne"} dec={dec} rt={rt} txt={txt} masm={match enc with | some b => hex (b.map UInt8.ofNat) | none => "none"}"
     | _, _, _ => "error=parse1"
   | _ => "error=parse0"
 
